@@ -342,9 +342,18 @@ func c02Stream(r *hx.Rand, tier string, n int, w *bufio.Writer) map[string]int {
 		}
 		sub := "user-1"
 		issClaim := issuer
+		anySubject := false
 		if verifier == "assertion" {
 			issClaim, sub = "client-A", "client-A"
 			algs = nil
+			if r.Chance(40) {
+				anySubject = true // custom subject check that permits delegation (iss != sub)
+				issClaim, sub = hx.Pick(r, "client-A", "client-B"), hx.Pick(r, "client-A", "client-B")
+				if r.Chance(50) {
+					signer, kid = other, kid // the key registered for client-B
+					alg = signer.Algs[0]
+				}
+			}
 		}
 		claims := map[string]any{"iss": issClaim, "sub": sub, "aud": []string{cid, issuer}, "azp": cid, "exp": sec + 600, "iat": sec - 5}
 		payload, _ := json.Marshal(claims)
@@ -428,7 +437,12 @@ func c02Stream(r *hx.Rand, tier string, n int, w *bufio.Writer) map[string]int {
 			}
 			st.clients = append(st.clients, "client-B")
 			st.keys = append(st.keys, pubKey{other, kid, "sig"})
-			v := op.NewJWTProfileVerifier(st, issuer, time.Hour, time.Second)
+			var jo []op.JWTProfileVerifierOption
+			if anySubject {
+				jo = append(jo, op.SubjectCheck(func(*oidc.JWTTokenRequest) error { return nil }))
+				l.S("v.subjcheck", "any")
+			}
+			v := op.NewJWTProfileVerifier(st, issuer, time.Hour, time.Second, jo...)
 			var req *oidc.JWTTokenRequest
 			call(func() { req, verr = op.VerifyJWTAssertion(context.Background(), tok, v) })
 			if verr == nil && req != nil {
